@@ -44,7 +44,8 @@ func ParseVolume(spec string) (types.ServiceVolumeConfig, error) {
 	var buffer []rune
 	for _, char := range spec + string(endOfSpec) {
 		switch {
-		case isWindowsDrive(buffer, char):
+		case isWindowsDrive(buffer, char) && (volume.Source == "" || volume.Target == ""):
+			// a drive letter can only start the source or the target, never the options section
 			buffer = append(buffer, char)
 		case char == ':' || char == endOfSpec:
 			if err := populateFieldFromBuffer(char, buffer, &volume); err != nil {
